@@ -280,6 +280,31 @@ func Run(r *core.Run) {
 			mut("update-commitment-of-signing-key", v, func(m M) { m["delta"].(M)["updateCommitment"] = ops.Commitment(k, 18); rebind(m) })
 			mut("update-commitment-of-signing-key-sha512", v, func(m M) { m["delta"].(M)["updateCommitment"] = ops.Commitment(k, 19); rebind(m) })
 		}
+		if typ == "update" || typ == "recover" {
+			// the same request signed by the key with a nonce (another JWK, another commitment): valid as it is; committing again to
+			// that JWK is key re-use, committing to the key without the nonce (or with another nonce) is not
+			kn, kn2 := k.WithNonce("AQIDBAUGBwgJCgsMDQ4PEA"), k.WithNonce("EA8ODQwLCgkIBwYFBAMCAQ")
+			keyMember := map[string]string{"update": "updateKey", "recover": "recoveryKey"}[typ]
+			withNonceKey := func(m M) {
+				m["revealValue"] = ops.Reveal(kn, 18)
+				resign(m, kn, nil, func(p M) { p[keyMember] = kn.JWKMap() })
+			}
+			mut("signing-key-with-nonce", v, withNonceKey)
+			for name, c := range map[string]string{"with-its-nonce": ops.Commitment(kn, 18), "with-its-nonce-sha512": ops.Commitment(kn, 19), "without-its-nonce": ops.Commitment(k, 18), "with-another-nonce": ops.Commitment(kn2, 18)} {
+				c := c
+				mut("update-commitment-of-nonce-carrying-signing-key-"+name, v, func(m M) {
+					withNonceKey(m)
+					m["delta"].(M)["updateCommitment"] = c
+					resign(m, kn, nil, func(p M) { p["deltaHash"] = ops.HashOf(m["delta"], 18) })
+				})
+				if typ == "recover" {
+					mut("recovery-commitment-of-nonce-carrying-signing-key-"+name, v, func(m M) {
+						withNonceKey(m)
+						resign(m, kn, nil, func(p M) { p["recoveryCommitment"] = c })
+					})
+				}
+			}
+		}
 		if typ == "recover" {
 			mut("recovery-commitment-of-signing-key", v, func(m M) { resign(m, k, nil, func(p M) { p["recoveryCommitment"] = ops.Commitment(k, 18) }) })
 			mut("recovery-commitment-of-signing-key-sha512", v, func(m M) { resign(m, k, nil, func(p M) { p["recoveryCommitment"] = ops.Commitment(k, 19) }) })
